@@ -18,6 +18,7 @@ use rand_chacha::ChaCha8Rng;
 use rand_core::SeedableRng;
 use serde_json::{json, Value};
 
+pub mod family;
 pub mod recording;
 
 pub struct Ctx {
@@ -178,6 +179,9 @@ impl Ctx {
 
 /// Install a panic hook that stays silent (panics are caught and reported as values).
 pub fn quiet_panics() {
+    if std::env::var("MZKH_VERBOSE").is_ok() {
+        return;
+    }
     std::panic::set_hook(Box::new(|_| {}));
 }
 
